@@ -419,6 +419,20 @@ inline Shared *&currentShared()
 inline void abandonChild();
 // in a forked child: send stderr to $VH_OUT/err.<pid> so that sanitizer messages printed
 // there (UBSan ignores log_path) can be attributed to the case that produced them
+// in a forked child: forget the counters inherited from the parent (the parent reports
+// them itself; re-emitting them from every child would multiply them)
+inline void childResetStats()
+{
+  State &S = st();
+  S.counters.clear();
+  S.maxima.clear();
+  S.notes.clear();
+  S.violPerKey.clear();
+  S.distinct.clear();
+  S.evaluations = 0;
+  S.t0          = now();
+}
+
 inline void childRedirectStderr()
 {
   if (!getenv("VH_OUT"))
@@ -455,6 +469,7 @@ inline void forkedCases(long n, const std::function<void(long)> &fn, int timeout
     }
     if (pid == 0) {
       childRedirectStderr();
+      childResetStats();
       double lastFlush = now();
       for (long i = k; i < end; ++i) {
         sh->cur = i;
@@ -543,6 +558,7 @@ inline int forkedOne(const std::string &desc, const std::function<void()> &fn, i
   }
   if (pid == 0) {
     childRedirectStderr();
+    childResetStats();
     fn();
     flushStats();
     _exit(0);
